@@ -282,6 +282,63 @@ Ltac cursub_tac k :=
   [try discriminate; try (inversion Hw0; subst; try apply incl_refl)
   | try match goal with O : Order _ ?st |- _ => eapply (o_cursub _ st O); eassumption end].
 
+Lemma advance_pipe st k n rest k0 :
+  pipe (advance k n rest st) k0 = if Nat.eqb k0 k then concat rest ++ mbox st k else pipe st k0.
+Proof.
+  unfold advance, pipe. destruct rest; sp; unfold upd; destruct (Nat.eqb k0 k) eqn:E; try reflexivity;
+    apply Nat.eqb_eq in E; subst k0; reflexivity.
+Qed.
+
+Lemma advance_cursub st k n rest :
+  (forall k0 n cur curall rest, k0 <> k -> wpcs st k0 = WDisp n cur curall rest -> incl cur curall) ->
+  cursub (advance k n rest st).
+Proof.
+  intros H. unfold cursub, advance. destruct rest; sp; intros k0 ? ? ? ? Hw0; by_idx k0 k;
+    try discriminate; try (inversion Hw0; subst; apply incl_refl); eapply H; eassumption.
+Qed.
+
+Lemma advance_sends st k n rest : sends (advance k n rest st) = sends st.
+Proof. unfold advance. destruct rest; reflexivity. Qed.
+Lemma advance_disps st k n rest : disps (advance k n rest st) = disps st.
+Proof. unfold advance. destruct rest; reflexivity. Qed.
+Lemma advance_wire st k n rest : wire (advance k n rest st) = wire st.
+Proof. unfold advance. destruct rest; reflexivity. Qed.
+Lemma advance_spcs st k n rest : spcs (advance k n rest st) = spcs st.
+Proof. unfold advance. destruct rest; reflexivity. Qed.
+Lemma advance_nextq st k n rest : nextq (advance k n rest st) = nextq st.
+Proof. unfold advance. destruct rest; reflexivity. Qed.
+
+(* drop [cur] (no SENDACK for them), then advance *)
+Lemma order_drop_advance c st k n cur rest :
+  Order c st -> wk_items (wpcs st k) = cur ++ concat rest ->
+  Order c (advance k n rest (drop_items cur st)).
+Proof.
+  intros O Hw.
+  apply (order_handled c st _ k cur (concat rest ++ mbox st k) (now st) O).
+  - unfold pipe. rewrite Hw, <- app_assoc. reflexivity.
+  - intro k0. rewrite advance_pipe. reflexivity.
+  - rewrite advance_sends. reflexivity.
+  - rewrite advance_disps. reflexivity.
+  - rewrite advance_wire, advance_disps. sp. apply osub_disps. apply (o_sub c st O).
+  - rewrite advance_spcs. reflexivity.
+  - rewrite advance_nextq. reflexivity.
+  - apply advance_cursub. sp. intros. eapply (o_cursub c st O); eassumption.
+Qed.
+
+Lemma order_advance c st k n rest :
+  Order c st -> wk_items (wpcs st k) = concat rest -> Order c (advance k n rest st).
+Proof.
+  intros O Hw.
+  apply (order_neutral c st _ k O).
+  - intro k0. rewrite advance_pipe. destruct (Nat.eqb k0 k); [|reflexivity]. unfold pipe. rewrite Hw. reflexivity.
+  - apply advance_sends.
+  - apply advance_disps.
+  - apply advance_wire.
+  - apply advance_spcs.
+  - apply advance_nextq.
+  - apply advance_cursub. intros. eapply (o_cursub c st O); eassumption.
+Qed.
+
 Lemma order_work c st k ch : cfg_ok c -> (k < c_shards c)%nat -> Order c st -> Order c (work_step c k ch st).
 Proof.
   intros Hc Hk O. unfold work_step.
@@ -296,20 +353,12 @@ Proof.
         (apply (order_neutral c st _ k O); try reflexivity; [pipe_tac k | cursub_tac k]).
   - (* WConsumeShard *) apply (order_neutral c st _ k O); try reflexivity; [pipe_tac k | cursub_tac k].
   - (* WConsume *)
-    pose proof (units_concat c t_b items) as Hcat. unfold advance.
-    destruct (units c t_b items) as [|b0 rest] eqn:Hu;
-      (apply (order_neutral c st _ k O); try reflexivity; [pipe_tac k | cursub_tac k]).
-    + rewrite <- Hcat. reflexivity.
-    + rewrite <- Hcat. cbn [concat]. rewrite <- app_assoc. reflexivity.
+    pose proof (units_concat c t_b items) as Hcat.
+    assert (O1 : Order c (set_queued (queued st - len items) st)).
+    { destruct O; constructor; assumption. }
+    apply order_advance; [exact O1|]. sp. rewrite Hw. cbn [wk_items]. symmetry. exact Hcat.
   - (* WDisp *)
     pose proof (o_cursub c st O k _ _ _ _ Hw) as Hsub.
-    assert (Hdrop : Order c (advance k n rest (drop_items cur st))).
-    { unfold advance. destruct rest;
-        (apply (order_handled c st _ k cur (concat rest ++ mbox st k) (now st) O);
-         try reflexivity; [unfold pipe; rewrite Hw; cbn [wk_items]; rewrite <- ?app_assoc; reflexivity
-                          | pipe_tac k | sp; apply osub_disps; apply (o_sub c st O) | cursub_tac k]).
-      - cbn [concat app]. reflexivity.
-      - cbn [concat]. rewrite <- app_assoc. reflexivity. }
     assert (Hdef : Order c match cur with
                           | [] => advance k n rest st
                           | x :: cur' => set_wpc k (WDisp n cur' curall rest)
@@ -317,8 +366,7 @@ Proof.
                                  else set_wire (wire st ++ [HWire (t_s x) 0 (t_q x) (now st)]) st))
                           end).
     { destruct cur as [|x cur'].
-      - unfold advance. destruct rest;
-          (apply (order_neutral c st _ k O); try reflexivity; [pipe_tac k | cursub_tac k]).
+      - apply order_advance; [exact O|]. rewrite Hw. reflexivity.
       - destruct (sclosed st (t_s x));
           (apply (order_handled c st _ k [x] (cur' ++ concat rest ++ mbox st k) (now st) O);
            try reflexivity; [unfold pipe; rewrite Hw; cbn [wk_items app]; rewrite <- ?app_assoc; reflexivity
@@ -329,19 +377,63 @@ Proof.
         + intros a Ha. apply Hsub. right. exact Ha. }
     destruct ch; try exact Hdef.
     + (* CFail *) apply (order_neutral c st _ k O); try reflexivity; [pipe_tac k | cursub_tac k].
-    + (* CPanic *) exact Hdrop.
+    + (* CPanic *) apply order_drop_advance; [exact O|]. rewrite Hw. reflexivity.
   - (* WErr *)
     destruct toclose as [|s0 tc].
-    + unfold advance. destruct rest;
-        (apply (order_handled c st _ k cur (concat rest ++ mbox st k) (now st) O);
-         try reflexivity; [unfold pipe; rewrite Hw; cbn [wk_items]; rewrite <- ?app_assoc; reflexivity
-                          | pipe_tac k | sp; apply osub_disps; apply (o_sub c st O) | cursub_tac k]).
-      * cbn [concat app]. reflexivity.
-      * cbn [concat]. rewrite <- app_assoc. reflexivity.
+    + apply order_drop_advance; [exact O|]. rewrite Hw. reflexivity.
     + apply (order_neutral c st _ k O); try reflexivity; [pipe_tac k | cursub_tac k].
   - (* WComplete *)
     destruct (r =? 0); (apply (order_neutral c st _ k O); try reflexivity; [pipe_tac k | cursub_tac k]).
   - (* WFinish *)
     destruct (mbox st k) eqn:Hm; [|destruct (mclosed st)];
       (apply (order_neutral c st _ k O); try reflexivity; [pipe_tac k | cursub_tac k]).
+Qed.
+
+Lemma order_frame c st st' :
+  Order c st -> sends st' = sends st -> disps st' = disps st -> wpcs st' = wpcs st -> mbox st' = mbox st ->
+  spcs st' = spcs st -> nextq st' = nextq st -> (forall s, ackq (wire st') s = ackq (wire st) s) ->
+  Order c st'.
+Proof.
+  intros [? ? ? ? ? ? ?] Hs Hd Hw Hm Hsp Hn Ha.
+  assert (Hp : forall k, pipe st' k = pipe st k) by (intro k; unfold pipe; rewrite Hw, Hm; reflexivity).
+  constructor.
+  - intros k x. rewrite Hp. apply o_shard0.
+  - intro s. rewrite Hs, Hd, Hp. apply o_acc0.
+  - intros k n cur curall rest. rewrite Hw. apply o_cursub0.
+  - intro s. rewrite Ha, Hd. apply o_sub0.
+  - rewrite Hsp, Hn. exact o_inflight0.
+  - unfold fresh_bound. rewrite Hsp, Hn, Hs. exact o_fresh0.
+  - rewrite Hs. exact o_sorted0.
+Qed.
+
+Lemma order_stepT c st e : cfg_ok c -> Order c st -> Order c (stepT c st e).
+Proof.
+  intros Hc O. destruct e; cbn [stepT].
+  - apply order_send. exact O.
+  - destruct (s <? c_nsess c)%nat eqn:Hs; [|exact O]. ltb_hyp. apply order_sub; assumption.
+  - destruct (k <? c_shards c)%nat eqn:Hk; [|exact O]. ltb_hyp. apply order_work; assumption.
+  - destruct (dpcs st d); try exact O. apply (order_frame c st _ O); reflexivity.
+  - unfold drain_step. destruct (dpcs st d); try exact O.
+    + apply (order_frame c st _ O); reflexivity.
+    + apply (order_frame c st _ O); reflexivity.
+    + destruct (drained st); [apply (order_frame c st _ O); reflexivity|].
+      destruct timeout; [apply (order_frame c st _ O); reflexivity | exact O].
+  - destruct (dstarted st && negb (drained st) && (admitted st =? 0)); [|exact O].
+    apply (order_frame c st _ O); reflexivity.
+  - destruct (cstarted st && drained st && negb (mclosed st)); [|exact O].
+    apply (order_frame c st _ O); reflexivity.
+  - destruct (s <? c_nsess c)%nat; [|exact O]. apply (order_frame c st _ O); reflexivity.
+  - destruct ((s <? c_nsess c)%nat && negb (w =? 0)) eqn:Hg; [|exact O]. ltb_hyp.
+    destruct (sclosed st s); apply (order_frame c st _ O); try reflexivity.
+    intro s0. sp. apply ackq_push. assumption.
+Qed.
+
+Lemma order_step c st e : cfg_ok c -> Order c st -> Order c (step c st e).
+Proof. intros Hc O. rewrite step_eq. apply order_stepT; [exact Hc|]. apply order_tick. exact O. Qed.
+
+Lemma order_run c evs : cfg_ok c -> Order c (run c evs).
+Proof.
+  intro Hc. unfold run. rewrite <- fold_left_rev_right.
+  induction (rev evs) as [|e l IH]; cbn [fold_right]; [apply order_init|].
+  apply order_step; assumption.
 Qed.
